@@ -39,17 +39,19 @@ func logTail(l []spdycli.Event, n int) []string {
 }
 
 var (
-	inflightMu sync.Mutex
-	inflight   = map[int]bool{}
+	inflightMu   sync.Mutex
+	inflight     = map[int]bool{}
+	inconclCases []interface{}
 )
 
 func c40WriteAhead(r *vkit.Run, idx int, start bool) {
 	inflightMu.Lock()
-	if start {
-		inflight[idx] = true
-	} else {
+	if !start {
 		delete(inflight, idx)
+		inflightMu.Unlock()
+		return
 	}
+	inflight[idx] = true
 	var ids []int
 	for i := range inflight {
 		ids = append(ids, i)
@@ -134,6 +136,13 @@ func c40(r *vkit.Run) {
 		t0 := time.Now()
 		res := runCase(spec)
 		c40WriteAhead(r, i, false)
+		if res.Inconcl != "" {
+			inflightMu.Lock()
+			if len(inconclCases) < 4 {
+				inconclCases = append(inconclCases, map[string]interface{}{"why": res.Inconcl, "spec": spec, "log": logTail(res.Log, 40), "handlers": res.HandlerInfo})
+			}
+			inflightMu.Unlock()
+		}
 		if d := time.Since(t0); os.Getenv("VSPDY_TIMING") != "" {
 			r.Count("ms_"+spec.Kind, d.Milliseconds())
 			if d > 2*time.Second {
@@ -143,6 +152,9 @@ func c40(r *vkit.Run) {
 		c40Report(r, spec, res)
 	})
 	tmark("cases done")
+	if len(inconclCases) > 0 {
+		r.Extra("inconclusive_cases", inconclCases)
+	}
 	c40Epilogue(r, base)
 	tmark("epilogue done")
 
